@@ -13,7 +13,7 @@ import (
 type rng struct{ s uint64 }
 
 func newRng(seed uint64) *rng { return &rng{s: seed} }
-func (r *rng) u64() uint64   { return simrt.SplitMixNext(&r.s) }
+func (r *rng) u64() uint64    { return simrt.SplitMixNext(&r.s) }
 func (r *rng) intn(n int) int {
 	if n <= 0 {
 		return 0
@@ -22,7 +22,7 @@ func (r *rng) intn(n int) int {
 }
 func (r *rng) chance(num, den int) bool { return r.intn(den) < num }
 func (r *rng) between(lo, hi int) int   { return lo + r.intn(hi-lo+1) }
-func (r *rng) fork(tag uint64) *rng      { return newRng(simrt.Mix(r.u64(), tag)) }
+func (r *rng) fork(tag uint64) *rng     { return newRng(simrt.Mix(r.u64(), tag)) }
 
 func pick[T any](r *rng, xs []T) T { return xs[r.intn(len(xs))] }
 
